@@ -188,7 +188,7 @@ class Pool:
             kind = rng.choice(["poly", "poly", "poly", "trig", "const"])
             el = E.P(self.cell, 2, tuple(shape))
             V = ufl.FunctionSpace(self.mesh, el)
-            t = ufl.Coefficient(V) if role == "f" else ufl.Argument(V, rng.choice([0, 1, 2]))
+            t = ufl.Coefficient(V) if role == "f" else ufl.Argument(V, self.counter)  # equal (number, space) would make two Arguments one mapping key
         f = Field(rng, shape, self.d, kind, cplx_f)
         if f.constant:
             style = rng.choice(["value", "value", "value_np", "value_list" if shape else "value"] + (["call2"] if role != "c" else []))
@@ -198,6 +198,18 @@ class Pool:
         self.field[name] = f
         self.style[name] = style
         self.shape[name] = tuple(shape)
+        return name
+
+    def geo(self, gname):
+        """A geometric quantity given a value through the mapping (it is a Terminal like any other)."""
+        name = "geo_" + gname
+        if name not in self.term:
+            t = getattr(ufl, gname)(self.mesh)
+            shape = tuple(t.ufl_shape)
+            self.term[name] = t
+            self.field[name] = Field(self.rng, shape, self.d, "const", False)
+            self.style[name] = self.rng.choice(["value", "value_np", "value_list" if shape else "value"])
+            self.shape[name] = ("geo",) + shape
         return name
 
     def get(self, shape, prefer_const=False):
@@ -396,7 +408,7 @@ class RG:
         if r < 0.60:
             return m_getitem(self.xvec(), (("int", rng.randrange(self.d)),))
         if r < 0.63 and self.geo and not dlev:
-            return N("geo", (), rng.choice(["CellVolume", "Circumradius", "CellDiameter"]), (), {}, real=True)
+            return N("coef", (), self.pool.geo(rng.choice(["CellVolume", "Circumradius", "CellDiameter", "FacetArea"])), (), {}, real=True)
         sh = rng.choice([(n,) for n in self.dims] + [(self.d,), (self.d, self.d), (2, 2), (2, 3)])
         t = self.coef(sh) if rng.random() < 0.8 or sh != (self.d,) else self.xvec()
         return m_getitem(t, tuple(("int", rng.randrange(n)) for n in sh))
@@ -573,7 +585,7 @@ class RG:
         if r < 0.25 and sh in ((2, 2), (3, 3, 3)):
             return N("eps", (), len(sh), sh, {}, real=True)
         if r < 0.27 and self.geo and sh == (self.d,) and not dlev:
-            return N("geo", (), "FacetNormal", sh, {}, real=True)
+            return N("coef", (), self.pool.geo("FacetNormal"), sh, {}, real=True)
         return self.coef(sh)
 
     def tensor(self, sh, depth, dlev=0, smooth=False):
